@@ -210,3 +210,24 @@ func replayV(vc vcase, signZero bool, judge func(e refExpr, vals []VarSpec, got,
 }
 
 var _ = xsel.Number(0)
+
+// permute calls f with every permutation of l (Heap's algorithm; f must copy).
+func permute(l []string, f func([]string)) {
+	a := append([]string{}, l...)
+	var rec func(k int)
+	rec = func(k int) {
+		if k <= 1 {
+			f(a)
+			return
+		}
+		for i := 0; i < k; i++ {
+			rec(k - 1)
+			if k%2 == 0 {
+				a[i], a[k-1] = a[k-1], a[i]
+			} else {
+				a[0], a[k-1] = a[k-1], a[0]
+			}
+		}
+	}
+	rec(len(a))
+}
